@@ -75,10 +75,15 @@ func run(c *rig.Ctx) {
 			m.Audio.EndMachineCycle()
 		}
 		lo, hi := uint8(f), uint8(f>>8)&7
-		m.Mem.Write(0xff12, 0xf0)
+		// the waveform steps whatever the volume: full, zero (DAC still on), zero fading in, one
+		env := []uint8{0xf0, 0x08, 0x0f, 0x18}[i%4]
+		if env&0xf0 == 0 {
+			c.Count("square_frequencies_at_volume_zero", 2)
+		}
+		m.Mem.Write(0xff12, env)
 		m.Mem.Write(0xff13, lo)
 		m.Mem.Write(0xff14, 0x80|hi)
-		m.Mem.Write(0xff17, 0xf0)
+		m.Mem.Write(0xff17, env)
 		m.Mem.Write(0xff18, lo)
 		m.Mem.Write(0xff19, 0x80|hi)
 		m.Mem.Write(0xff1a, 0x80)
@@ -254,8 +259,26 @@ func run(c *rig.Ctx) {
 			m.Audio.EndMachineCycle()
 		}
 		m.Mem.Write(0xff21, 0xf0)
-		m.Mem.Write(0xff22, nr43)
-		m.Mem.Write(0xff23, 0x80)
+		grace := int64(0)
+		if i%3 == 2 {
+			// the setting is reached without a new trigger, from a shift the generator never
+			// clocks at (s = 14 or 15) or from another ordinary one: the period in force is the
+			// register's, after at most one period of the earlier setting
+			// (the width bit stays as it is: changing the register width in mid-sequence is
+			// outside the statement)
+			prev := r.Pick8([]uint8{0xe0, 0xf0, 0xe7, 0x50, 0x00})&^0x08 | nr43&0x08
+			m.Mem.Write(0xff22, prev)
+			m.Mem.Write(0xff23, 0x80)
+			for k := 0; k < 200+r.Intn(2000); k++ {
+				m.Audio.EndMachineCycle()
+			}
+			m.Mem.Write(0xff22, nr43)
+			grace = (divisors[prev&7]<<uint(prev>>4))/4 + 8
+			c.Count("noise_settings_reached_without_trigger", 1)
+		} else {
+			m.Mem.Write(0xff22, nr43)
+			m.Mem.Write(0xff23, 0x80)
+		}
 		if m.Mem.Read(0xff26)&0x08 == 0 {
 			c.Violate("noise-not-started", fmt.Sprintf("NR43=%02X: NR52=%02X after triggering channel 4", nr43, m.Mem.Read(0xff26)), nil)
 			return
@@ -278,6 +301,14 @@ func run(c *rig.Ctx) {
 		st := &stepper{p: p}
 		prev := m.Audio.XWaveState().LFSR
 		var bits []uint8
+		// (the earlier setting's period may still run out first)
+		for g := int64(0); g < grace; g++ {
+			m.Audio.EndMachineCycle()
+			if cur := m.Audio.XWaveState().LFSR; cur != prev {
+				prev = cur
+				break
+			}
+		}
 		limit := (want + 2) * p / 4
 		for n := int64(1); n <= limit+8 && st.k < want; n++ {
 			m.Audio.EndMachineCycle()
